@@ -314,6 +314,9 @@ def eq(I, a, b):
     kinds = lambda v: "int" if is_intlike(v) else "bytes" if is_byteslike(v) else "str" if isinstance(v, (str, SStr)) else type(v).__name__
     if kinds(a) != kinds(b):
         return False
+    if type(a).__name__ == "BoundMethod" and type(b).__name__ == "BoundMethod":
+        # bound methods are equal iff same function and same instance
+        return a.func is b.func and a.self_val is b.self_val
     raise Unsupported(f"equality of {type(a).__name__} and {type(b).__name__}")
 
 
@@ -466,6 +469,11 @@ def get_item(I, obj, idx):
             I.raise_py(KeyError, idx)
         return obj.value_at(I, obj.touched[-1])
 
+    if type(obj).__name__ == "SymList":
+        # a havocked list: only the part appended since the havoc is known - negative indices into it
+        if isinstance(idx, int) and not isinstance(idx, bool) and idx < 0 and -idx <= len(obj.tail):
+            return obj.tail[idx]
+        raise Unsupported("read of the unknown part of a havocked list")
     if isinstance(obj, SBytes) or (isinstance(obj, (bytes, bytearray)) and is_symbolic(idx)):
         b = B.to_sbytes(obj)
         if isinstance(idx, slice):
